@@ -1,4 +1,7 @@
 import Props.C06
 import Props.C07
 import Props.C10
+import Props.C11
+import Props.C12
+import Props.C18
 import Props.C19
